@@ -103,3 +103,13 @@ func lemmaHeaderRoundTrip(h messageHeader, blockNumber uint16, last bool) (messa
 //@ ensures [len]   (lengthByte < 10 || lengthByte > 254) ==> result1 != nil
 //@ ensures [agree] len(rest) != int(lengthByte)+2 ==> result1 != nil
 //@ ensures [hdr]   result1 == nil ==> forall j :: 0 <= j && j < 10 ==> result0.header[j] == rest[j]
+
+// --- C09 (SECS-I side): a parked Write is released by its generation's teardown broadcast ---
+
+func zzRet[T any](name string) T { panic("spec only") }
+
+// Every select of Write that can park (no default clause) also waits on the genDone channel of the
+// generation it loaded, and Write performs no channel operation outside a select.
+//@ func (*transport).Write
+//@ nosafety nil-deref nil-iface
+//@ waits [gendone] zzRet[*genState]("atomic.Load:gen").genDone
